@@ -115,13 +115,29 @@ pub fn export_cmd(dir: &str) -> i32 {
             Ok(k) => k,
             Err(_) => {
                 // ring cannot generate RSA keys: export a loaded fixture key instead
-                let z = zoo.iter().find(|z| z.kind.fits(a) && z.format == KeyFormat::Pkcs8).unwrap();
+                let z = zoo.iter().find(|z| z.kind.fits(a) && z.format == KeyFormat::Pkcs8 && backend_supports(z.kind, z.format)).unwrap();
                 rc_load(z, a).unwrap()
             }
         };
         std::fs::write(format!("{}/{}.key.der", dir, a.name()), kp.serialize_der()).unwrap();
         std::fs::write(format!("{}/{}.key.pem", dir, a.name()), kp.serialize_pem()).unwrap();
         std::fs::write(format!("{}/{}.pub.der", dir, a.name()), kp.public_key_der()).unwrap();
+    }
+    // whatever this back end manages to load, through whichever entry point and from whichever input form,
+    // it exports as "PKCS#8": the other back end must be able to take every such export
+    for z in zoo.iter().filter(|z| !z.kind.is_slow() && z.name.contains("_1")) {
+        for e in super::c11::ENTRIES {
+            let algs: Vec<Option<Alg>> = if e.takes_alg() { backend_algs().into_iter().filter(|a| z.kind.fits(*a)).map(Some).collect() } else { vec![None] };
+            for a in algs {
+                if let Ok(Ok(kp)) = super::c11::load(e, &z.der, z.format, a) {
+                    let Some(alg) = alg_of(kp.algorithm()) else { continue };
+                    let stem = format!("{}/{}~{}~{:?}", dir, alg.name(), z.name, e);
+                    std::fs::write(format!("{}.key.der", stem), kp.serialize_der()).unwrap();
+                    std::fs::write(format!("{}.key.pem", stem), kp.serialize_pem()).unwrap();
+                    std::fs::write(format!("{}.pub.der", stem), kp.public_key_der()).unwrap();
+                }
+            }
+        }
     }
     0
 }
@@ -273,7 +289,7 @@ pub fn run(prop: &str, tier: &str, replay: Option<&str>) -> i32 {
     }
     // 3. keys exported by one back end load in the other with the same public key and algorithm
     if run::replay().is_none() {
-        let sec = Section::new("interop/key-export-import", "keys of every algorithm exported (PKCS#8 DER and PEM) by the aws-lc-rs build load in this (ring) build and vice versa, with the public key OpenSSL derives and the same algorithm; a CSR signed with the imported key verifies (signature interop of artefacts is C01's: every artefact there is verified by OpenSSL, ring and aws-lc-rs)");
+        let sec = Section::new("interop/key-export-import", "keys of every algorithm (generated, and every fixture key x input form x loading entry point that the exporter accepts) exported (PKCS#8 DER and PEM) by the aws-lc-rs build load in this (ring) build and vice versa, with the public key OpenSSL derives and the same algorithm; a CSR signed with the imported key verifies (signature interop of artefacts is C01's: every artefact there is verified by OpenSSL, ring and aws-lc-rs)");
         for (from, to) in [("aws", "ring"), ("ring", "aws")] {
             let dir = scratch.join(format!("keys-from-{}", from));
             if let Err(e) = run_bin(from, &["C16-export", dir.to_str().unwrap()]) {
@@ -310,15 +326,25 @@ pub fn import_cmd(dir: &str, out: &str) -> i32 {
     let mut names: Vec<String> = std::fs::read_dir(dir).map(|rd| rd.flatten().filter_map(|e| e.file_name().into_string().ok()).filter(|n| n.ends_with(".key.der")).collect()).unwrap_or_default();
     names.sort();
     for n in names {
-        let alg_name = n.trim_end_matches(".key.der").to_string();
+        let stem = n.trim_end_matches(".key.der").to_string();
+        let alg_name = stem.split('~').next().unwrap_or("").to_string();
         let Some(alg) = ALL_ALGS.iter().copied().find(|a| a.name() == alg_name) else { continue };
+        // a fixture of a size/curve this back end does not take at all is not a common key
+        if let Some(fixture) = stem.split('~').nth(1) {
+            let zoo = load_zoo();
+            if let Some(z) = zoo.iter().find(|z| z.name == fixture) {
+                if !z.kind.backend_kind_ok() {
+                    continue;
+                }
+            }
+        }
         let verdict = (|| -> Result<(), String> {
             if rc_alg(alg).is_none() {
                 return Ok(()); // not common to both back ends
             }
             let der = std::fs::read(format!("{}/{}", dir, n)).map_err(|e| e.to_string())?;
-            let pem = std::fs::read_to_string(format!("{}/{}.key.pem", dir, alg_name)).map_err(|e| e.to_string())?;
-            let pubder = std::fs::read(format!("{}/{}.pub.der", dir, alg_name)).map_err(|e| e.to_string())?;
+            let pem = std::fs::read_to_string(format!("{}/{}.key.pem", dir, stem)).map_err(|e| e.to_string())?;
+            let pubder = std::fs::read(format!("{}/{}.pub.der", dir, stem)).map_err(|e| e.to_string())?;
             let k1 = rcgen::KeyPair::try_from(der.as_slice()).map_err(|e| format!("try_from: {:?}", e))?;
             let k2 = rcgen::KeyPair::from_pem_and_sign_algo(&pem, rc_alg(alg).unwrap()).map_err(|e| format!("from_pem_and_sign_algo: {:?}", e))?;
             let want_auto = if alg.is_rsa() { Alg::RsaSha256 } else { alg };
@@ -339,7 +365,7 @@ pub fn import_cmd(dir: &str, out: &str) -> i32 {
             }
             Ok(())
         })();
-        lines.push_str(&format!("{}\t{}\n", alg_name, match verdict {
+        lines.push_str(&format!("{}\t{}\n", stem, match verdict {
             Ok(()) => "OK".to_string(),
             Err(e) => e,
         }));
